@@ -1,4 +1,4 @@
-import DrummerVerif.Lemmas.Cadence
+import DrummerVerif.Lemmas.Renew
 /-! Non-vacuity of `healed_fleet_stays_healed`: a concrete settled closed-loop state in which every member is running
     (one shard, one member on one NodeHost, the view at the group's version), and a concrete fault-free event sequence
     from it (a tick, the NodeHost's report, an execution); the model's `report` on that state is evaluated by the kernel. -/
@@ -65,6 +65,21 @@ theorem window : WindowSteps ql ql2 1 :=
 theorem windowQuiet : QuietSteps ql ql2 ∧ ql2.Settled :=
   let h := quiet_window ql ql2 1 0 settled (by decide) fresh0 (by decide) (by decide) window
   ⟨h.1, h.2.1⟩
+
+/-- `report_renews_the_records_of_its_host` on the same run: the view's record is hosted by a1, the report at time 10
+    stamps it, and with a1 the only NodeHost named by a record the records are 0 old afterwards -/
+theorem hosted : ql1.ViewsHosted := by
+  intro c hc r hr
+  simp [ql1, ql, qdb1, qdb, DB.applyTick] at hc
+  subst hc
+  simp [qview] at hr
+  subst hr
+  exact ⟨qh, rfl, ⟨1, 101, 0⟩, rfl, rfl⟩
+
+theorem renewed : ql2.db.Since 10 ["a1"] :=
+  (report_since ql1 ql2 "a1" false 0 10 [] (quiet_step ql ql1 settled (.tick ql qdb1 10 rfl)).1
+    (by intro c hc c' hc' _; simp [ql1, ql, qdb1, qdb, DB.applyTick] at hc hc'; rw [hc, hc'])
+    hosted (by decide) (since_nil _ _) rfl).1
 
 example : ql2.db.image.shards.all (fun c => c.replicas.all (fun r => r.tick == 10)) = true := by decide
 #print axioms stays
